@@ -236,16 +236,28 @@ func (e *slEngine) SL(v ssa.Value, at ssa.Instruction) (bool, string) {
 
 func (e *slEngine) guarded(v ssa.Value, at ssa.Instruction) bool {
 	fn := at.Parent()
-	for _, ifi := range ifsIn(fn) {
-		s, ok := boolEdge(ifi, func(c ssa.Value) bool {
-			call, ok := isModCall(c, "isSingleLine")
-			return ok && sameValue(call.Call.Args[0], v)
-		})
-		if ok && edgeDominates(ifi.Block(), s, at.Block()) {
-			return true
-		}
+	same := func(x ssa.Value) bool { return x == v || sameValue(x, v) || carriesOnly(x, v) }
+	// the predicate helper …
+	if factGuards(fn, at.Block(), factBool(func(c ssa.Value) bool {
+		call, ok := isModCall(c, "isSingleLine")
+		return ok && same(call.Call.Args[0])
+	}, true)) {
+		return true
 	}
-	return false
+	// … or its definition written in place: NewlineIndex(v).length == 0
+	isLen := func(x ssa.Value) bool {
+		ex, ok := x.(*ssa.Extract)
+		if !ok || ex.Index != 1 {
+			return false
+		}
+		call, ok := ex.Tuple.(*ssa.Call)
+		if !ok {
+			return false
+		}
+		_, isNI := isModCall(call, "parser.NewlineIndex")
+		return isNI && same(call.Call.Args[0])
+	}
+	return intGuard(fn, at.Block(), isLen, 0, 0, 0)
 }
 
 func (e *slEngine) compute(v ssa.Value, at ssa.Instruction) (bool, string) {
